@@ -114,8 +114,13 @@ func c05RunE2E(t *testing.T, cp *ControlPlane, ud *c05Dialer, c *c05E2ECase) (st
 			return "harness:seg1-not-queued", ""
 		}
 	}
+	dialed := false
+	dialDone := make(chan struct{}) // closed once the bytes sent "during the dial" are on the wire
+	var dialOnce sync.Once
 	ud.mu.Lock()
 	ud.dial = func(string) (netproxy.Conn, error) {
+		dialed = true
+		defer dialOnce.Do(func() { close(dialDone) })
 		if len(c.during) > 0 {
 			// the client keeps sending while dae dials: pending in the socket when the relay starts
 			before := c05Inq(accepted)
@@ -149,7 +154,8 @@ func c05RunE2E(t *testing.T, cp *ControlPlane, ud *c05Dialer, c *c05E2ECase) (st
 	wg.Add(1)
 	go func() {
 		defer wg.Done()
-		time.Sleep(3 * time.Millisecond)
+		<-dialDone // keep the client's bytes in script order: seg1, during-dial, after
+		time.Sleep(time.Millisecond)
 		for _, a := range c.after {
 			_, _ = client.Write(a)
 			time.Sleep(300 * time.Microsecond)
@@ -169,6 +175,7 @@ func c05RunE2E(t *testing.T, cp *ControlPlane, ud *c05Dialer, c *c05E2ECase) (st
 		_ = client.Close()
 		_ = upLn.Close()
 	})
+	dialOnce.Do(func() { close(dialDone) })
 	if out != "" {
 		// a panic in the connection handler (production has no recover there: the daemon would die)
 		_ = accepted.Close()
@@ -176,6 +183,13 @@ func c05RunE2E(t *testing.T, cp *ControlPlane, ud *c05Dialer, c *c05E2ECase) (st
 		_ = upLn.Close()
 		wg.Wait()
 		return out, out
+	}
+	if !dialed {
+		// the front handled the connection itself (e.g. the bytes happened to be a well-formed DNS query)
+		_ = upLn.Close()
+		_ = accepted.Close()
+		wg.Wait()
+		return "harness:no-dial", ""
 	}
 	wg.Wait()
 	return fmt.Sprintf("out=%s ok=%s", c05Digest(upGot), c05B(herr == nil)),
